@@ -31,6 +31,11 @@ class AsyncioRunner(BaseRunner):
         return future.result()
 
     def _setup_payload(self, payload: Callable[[], Awaitable]):
+        if self._payload_failure.done():
+            # the runner is closing or has failed: a task created now would
+            # never be cancelled nor awaited before the event loop is closed
+            self._logger.warning(f"discarding payload {payload} during shutdown")
+            return
         task = self.asyncio_loop.create_task(self._monitor_payload(payload))
         self._tasks.add(task)
 
